@@ -240,6 +240,14 @@ func runC18(c *eng.Ctx) {
 		c.Check(member, "replica-membership", nil, ro, "ReplicasOnNode selects shards whose replica list contains the node", "no membership test of nodeID in a shard's replica list")
 	})
 
+	// ---- 4b. every shard of the handler's list is handled -------------------------------------------------------------------------
+	c.Rule("UNION", smgrT+"{every listed shard handled}", func() {
+		for _, fnName := range []string{"onNodeStartup", "onNodeFailure", "initializeShardState"} {
+			visitsEveryElement(c, c.Fn(smgrT+"."+fnName), "no-shard-skipped:"+fnName,
+				"the handler walks all shards it listed (all databases, all shards): no break / return out of the loops")
+		}
+	})
+
 	// ---- 5. assignment preconditions -------------------------------------------------------------------------------------------
 	c.Rule("GUARD", "coordinator/master.ShardAssignment{preconditions}", func() {
 		for _, fn := range []string{"coordinator/master.ShardAssignment", "coordinator/master.ModifyShardAssignment"} {
